@@ -880,4 +880,86 @@ MUTANTS += [
      "expect": [("C20", "C20|R5")]},
 ]
 
+MUTANTS += [
+    {"name": "c17-end-not-clamped",
+     "edits": [("src/cas.rs",
+                """            let range_end = std::cmp::min(range_end, item.blob_size);
+""", "")],
+     "expect": [("C17", "C17|R1")]},
+    {"name": "c17-no-start-beyond-size-check",
+     "edits": [("src/cas.rs",
+                """            if range_start >= item.blob_size {
+                return Ok(bytes::Bytes::new());
+            }
+""", "")],
+     "expect": [("C17", "C17|R1")]},
+    {"name": "c17-no-inverted-range-check",
+     "edits": [("src/cas_manager.rs",
+                """        if range_start > range_end {
+            return Err(CasManagerError::InvalidRangeStartEnd {
+                start: range_start,
+                end: range_end,
+            });
+        }
+""", "")],
+     "expect": [("C17", "C17|R2")]},
+    {"name": "c17-inverted-check-polarity",
+     "edits": [("src/cas_manager.rs",
+                """        if range_start > range_end {
+            return Err(CasManagerError::InvalidRangeStartEnd {""",
+                """        if range_start >= range_end && range_start != range_end + 0 {
+            return Err(CasManagerError::InvalidRangeStartEnd {""")],
+     "expect": []},
+    {"name": "c17-offset-not-advanced",
+     "edits": [("src/cas_manager.rs",
+                """            current_offset += bytes_read as u64;
+""", "")],
+     "expect": [("C17", "C17|R4")]},
+    {"name": "c17-advance-by-requested",
+     "edits": [("src/cas_manager.rs",
+                """            total_bytes_read += bytes_read;""",
+                """            total_bytes_read += remaining;""")],
+     "expect": [("C17", "C17|R4")]},
+    {"name": "c17-read-whole-spare",
+     "edits": [("src/cas_manager.rs",
+                """            let remaining = std::cmp::min(spare.len(), read_len as usize - total_bytes_read);""",
+                """            let remaining = spare.len();""")],
+     "expect": [("C17", "C17|R4")]},
+    {"name": "c18-hash-only-a-prefix",
+     "edits": [("src/transaction.rs",
+                """        self.hasher.update(data);""",
+                """        self.hasher.update(&data[..data.len().min(1 << 20)]);""")],
+     "expect": [("C18", "C18|R1")]},
+    {"name": "c18-count-calls-not-bytes",
+     "edits": [("src/transaction.rs",
+                """        self.size += data.len() as u64;""",
+                """        self.size += 1;""")],
+     "expect": [("C18", "C18|R1")]},
+    {"name": "c18-write-skipped-for-empty-tail",
+     "edits": [("src/transaction.rs",
+                """        self.writer.write_all(data).map_err(|e| TransactionError::StagingFileIo {""",
+                """        self.writer.write(data).map(|_| ()).map_err(|e| TransactionError::StagingFileIo {""")],
+     "expect": [("C18", "C18|R1")]},
+    {"name": "c18-components-overlap",
+     "edits": [("src/types.rs",
+                """        let truncated_filename = &hex[4..];""",
+                """        let truncated_filename = &hex[2..];""")],
+     "expect": [("C18", "C18|R4")]},
+    {"name": "c18-components-swapped",
+     "edits": [("src/types.rs",
+                """        PathBuf::from(top_level_dir).join(second_level_dir).join(truncated_filename)""",
+                """        PathBuf::from(second_level_dir).join(top_level_dir).join(truncated_filename)""")],
+     "expect": [("C18", "C18|R4")]},
+    {"name": "c18-parse-order",
+     "edits": [("src/types.rs",
+                """        for component in [first, second, third] {""",
+                """        for component in [second, first, third] {""")],
+     "expect": [("C18", "C18|R4")]},
+    {"name": "c18-intent-gets-other-hash",
+     "edits": [("src/transaction.rs",
+                """IntentMeta { blob_hash, blob_size: self.size })""",
+                """IntentMeta { blob_hash: crate::calculate_blob_hash(&self.size.to_le_bytes()), blob_size: self.size })""")],
+     "expect": [("C18", "C18|R2")]},
+]
+
 BENIGN = []
